@@ -78,6 +78,26 @@ def crosscheck_orders(alpha, solo):
     return orders
 
 
+def report_grouped(run: Run, items, cap, counter):
+    """items: (group, sort key, finding key, what, replay data).  One defect usually shows up in hundreds of
+    enumerated cases; per group only the `cap` smallest cases that are not known findings are reported as
+    violations (known findings are always matched), the rest is counted."""
+    groups = {}
+    for it in items:
+        groups.setdefault(it[0], []).append(it)
+    for g in sorted(groups, key=str):
+        members = sorted(groups[g], key=lambda it: it[1])
+        shown = 0
+        for _, _, key, what, rp in members:
+            if run._known_match(key) is not None:
+                run.violation(key, what, rp)
+            elif shown < cap:
+                shown += 1
+                run.violation(key, what + f"  [{len(members)} enumerated cases in group {g}]", rp)
+            else:
+                run.count(counter)
+
+
 def okey(order):
     return ";".join(T.etext(e) for e in order)
 
@@ -167,12 +187,35 @@ def part_types(run: Run):
             elif got_sigs[k] != s:
                 run.tool_error(f"restore-mode and forked-process structure differ for order {k}: restoring the caches is unsound")
     # every (spec, first) task explores 1 + (n-1) + (n-1)(n-2) + ... nodes
-    if run.counters.get("type_orders_explored", 0) != expected_nodes and not run.tool_errors:
+    # (a first use that raises only after other first uses is reported as a violation and prunes its subtree)
+    if run.counters.get("type_orders_explored", 0) != expected_nodes and not run.tool_errors \
+            and not run.counters.get("type_orders_raised", 0):
         run.tool_error(f"type exploration incomplete: {run.counters.get('type_orders_explored', 0)} nodes, expected {expected_nodes}")
-    for text, (order, n) in sorted(facts.items()):
-        run.violation("types/" + text, f"{text}  after first uses in the order [{okey(order)}] ({n} explored orders show it)",
-                      {"part": "types", "order": order, "fact": text})
+    import re
+
+    report_grouped(run, [(re.sub(r"\d+", "#", text), (len(order), len(text), text), "types/" + text,
+                          f"{text}  after first uses in the order [{okey(order)}] ({n} explored orders show it)",
+                          {"part": "types", "order": order, "fact": text})
+                         for text, (order, n) in facts.items()], 2, "type_facts_not_listed")
     run.count("type_facts_violated", len(facts))
+    # outside the statement's alphabet (recorded, not judged): subscripting an already sized class
+    try:
+        from cohdl import Unsigned, Signal, BitVector
+
+        T.restore_caches()
+        a = Unsigned[4][3]
+        odd = issubclass(Unsigned[3], Unsigned[4])
+        T.restore_caches()
+        b = Signal[BitVector[4]][BitVector[3]]
+        odd2 = issubclass(Signal[BitVector[3]], Signal[BitVector[4]])
+        T.restore_caches()
+        if odd or odd2:
+            run.note("not judged (expression outside the property's alphabet): Unsigned[4][3] as the FIRST use of width 3 registers a "
+                     f"class based on Unsigned[4] as Unsigned[3] (issubclass(Unsigned[3], Unsigned[4]) = {odd}); same for "
+                     f"Signal[BitVector[4]][BitVector[3]] = {odd2}")
+    except Exception as e:  # noqa
+        T.restore_caches()
+        run.note(f"re-subscript probe: {type(e).__name__}: {e}")
 
 
 # ---------------------------------------------------------------------------------------------------
@@ -231,6 +274,7 @@ def part_pyview(run: Run):
         for q in V.QKINDS:
             for kind in ("BV", "U", "S"):
                 tasks += [(q, kind, 4, 2, False, i, 4) for i in range(4)]
+    problems = []
     for kind, res in pmap(work_pyview, tasks, seed=run.seed):
         if kind != "ok":
             run.tool_error(f"pyview worker failed: {res[-800:]}")
@@ -247,9 +291,10 @@ def part_pyview(run: Run):
                               f"(value not visible through the object itself, so not through any view either)",
                               {"part": "pyapi", "q": q, "kind": knd, "W": W, "api": api})
         for key, what, rp in res["problems"]:
-            run.violation(key, what, rp)
+            problems.append(((V.qname(tuple(q)), rp["tag"]), (W, len(rp["chain"]), rp["iter_elem"] is not None, key), key, what, rp))
         if "rejected_example" in res:
             run.note(f"pyview chain rejected: {res['rejected_example']}")
+    report_grouped(run, problems, 3, "py_problems_not_listed")
     n = run.counters.get("py_chains", 0)
     if n == 0 or run.counters.get("py_chain_rejected", 0) * 10 > n or run.counters.get("py_writes", 0) < n:
         run.tool_error(f"pyview vacuous: chains={n} rejected={run.counters.get('py_chain_rejected', 0)} writes={run.counters.get('py_writes', 0)}")
@@ -259,12 +304,15 @@ def part_pyview(run: Run):
 # part 3: emitted designs
 # ---------------------------------------------------------------------------------------------------
 def emit_key(q, kind, W, chain, term, mode, r=None):
-    key = f"view/emit/{mode}/{V.qname(q)}/{kind}{W}/{term}/{V.chain_class(chain)}/{V.chain_key(chain)}"
+    """identity of the failing input.  Mismatches whose observed bit positions are exactly those obtained by
+    honouring only the offsets of the last range operation (one known root cause with hundreds of instances)
+    are grouped per (mode, qualifier kind); the smallest instance is reported.  Everything else is keyed by
+    the individual chain."""
     if r is not None and r.get("observed") is not None:
-        naive = V.naive_last_offset_model((kind, list(range(W))), chain)
+        naive = V.naive_last_offset_model(V.root_model(kind, W), chain)
         if naive is not None and list(naive[1]) == list(r["observed"]):
-            key += "/as-if-outer-offset-dropped"
-    return key
+            return f"view/emit/{mode}/{V.qname(q)}/{term}/{V.chain_class(chain)}/as-if-outer-offset-dropped", True
+    return f"view/emit/{mode}/{V.qname(q)}/{kind}{W}/{term}/{V.chain_class(chain)}/{V.chain_key(chain)}", False
 
 
 def work_emit(tasks):
@@ -276,7 +324,7 @@ def work_emit(tasks):
         r = V.check_emitted(q, kind, W, chain, term, mode)
         r["task"] = t
         if r["status"] in ("mismatch", "static"):
-            r["key"] = emit_key(q, kind, W, chain, term, mode, r)
+            r["key"], r["grouped"] = emit_key(q, kind, W, chain, term, mode, r)
         r.pop("vhdl", None)
         if r["status"] == "ok":
             r.pop("src", None)
@@ -285,15 +333,22 @@ def work_emit(tasks):
 
 
 def emit_tasks(run: Run):
-    fam = [("BV", 4, 2, False)]
+    arr_q = [("Signal", None), ("Variable", None)]
+    fam = [("BV", 4, 2, False, V.QKINDS), ("ARR", 4, 2, False, arr_q)]
     if run.thorough:
-        fam = [("BV", 4, 3, False), ("BV", 5, 2, False), ("BV", 6, 2, False), ("U", 4, 2, True), ("S", 4, 2, True)]
-    for kind, W, maxlen, ext in fam:
+        fam = [("BV", 4, 2, False, V.QKINDS), ("BV", 5, 2, False, V.QKINDS), ("BV", 6, 2, False, V.QKINDS),
+               ("U", 4, 2, True, V.QKINDS), ("S", 4, 2, True, V.QKINDS),
+               ("BV", 4, 3, False, arr_q), ("ARR", 4, 3, True, arr_q)]
+    seen = set()
+    for kind, W, maxlen, ext, qs in fam:
         for ch, m in V.chains(kind, W, maxlen, ext):
             for term in ("whole", "iter"):
                 if term == "iter" and m[0] == "Bit":
                     continue
-                for q in V.QKINDS:
+                for q in qs:
+                    if (kind, W, ch, term, q) in seen:
+                        continue
+                    seen.add((kind, W, ch, term, q))
                     for mode in ("read", "write"):
                         if mode == "write" and q not in V.WRITABLE:
                             continue
@@ -304,6 +359,8 @@ def part_emit(run: Run):
     tasks = list(emit_tasks(run))
     run.count("emit_designs_generated", len(tasks))
     step = max(1, len(tasks) // 4)
+    grouped = {}
+    single = []
     for kind, res in pmap(work_emit, list(chunked(tasks, 40)), seed=run.seed):
         if kind != "ok":
             run.tool_error(f"emit worker failed: {res[-800:]}")
@@ -317,19 +374,34 @@ def part_emit(run: Run):
                 if r["distinct_outputs"] >= 2:
                     run.count("emit_designs_nontrivial")
                 if run.counters["emit_ok"] % step == 1:
-                    run.sample({"view": f"{V.qname(tuple(q))}[{V.KIND_PY[knd]}[{W}]] root{V.chain_text(chain)}", "terminal": term,
+                    run.sample({"view": f"{V.qname(tuple(q))}[{V.KIND_PY.get(knd, 'Array')}[{W}]] root{V.chain_text(chain)}", "terminal": term,
                                 "mode": mode, "sim_evaluations": r["evals"]})
             elif st == "rejected":
                 run.note(f"emit rejected: {V.qname(tuple(q))} root{V.chain_text(chain)} {term} {mode}: {r['error'][:120]}")
+            elif st in ("mismatch", "static") and r.get("grouped"):
+                size = (W, len(chain), V.chain_text(chain))
+                g = grouped.setdefault(r["key"], [size, r, 0])
+                g[2] += 1
+                if size < g[0]:
+                    g[0], g[1] = size, r
             elif st in ("mismatch", "static"):
-                run.violation(r["key"], f"{V.qname(tuple(q))}[{V.KIND_PY[knd]}[{W}]] root, {mode} through root{V.chain_text(chain)}"
+                single.append(((mode, V.qname(tuple(q)), term, V.chain_class(tuple(tuple(o) for o in chain))),
+                               (W, len(chain), V.chain_text(chain)), r["key"], f"{V.qname(tuple(q))}[{V.KIND_PY.get(knd, 'Array[BitVector[2],2]')}[{W}]] root, {mode} through root{V.chain_text(chain)}"
                                         f"{' by iteration' if term == 'iter' else ''}: {r['what']}"
                                         f"{'; design uses root bits %s' % r['observed'] if r.get('observed') else ''}",
-                              {"part": "emit", "q": list(q), "kind": knd, "W": W, "chain": [list(o) for o in chain], "term": term,
-                               "mode": mode, "cohdl_source": r.get("src")})
+                               {"part": "emit", "q": list(q), "kind": knd, "W": W, "chain": [list(o) for o in chain], "term": term,
+                                "mode": mode, "cohdl_source": r.get("src")}))
+    report_grouped(run, single, 3, "emit_mismatches_not_listed")
+    for key, (_, r, n) in sorted(grouped.items()):
+        q, knd, W, chain, term, mode = r["task"]
+        run.violation(key, f"{V.qname(tuple(q))}[{V.KIND_PY.get(knd, 'Array')}[{W}]] root, {mode} through root{V.chain_text(chain)} by iteration: "
+                           f"{r['what']}; design uses root bits {r['observed']} ({n} chains of this family show the same shift)",
+                      {"part": "emit", "q": list(q), "kind": knd, "W": W, "chain": [list(o) for o in chain], "term": term,
+                       "mode": mode, "cohdl_source": r.get("src"), "instances": n})
     acc = run.counters.get("emit_ok", 0) + run.counters.get("emit_mismatch", 0)
-    if acc * 10 < len(tasks) * 9:
-        run.tool_error(f"emit vacuous: only {acc} of {len(tasks)} wrapper designs accepted by the compiler")
+    applicable = len(tasks) - run.counters.get("emit_na", 0)
+    if applicable == 0 or acc * 10 < applicable * 9:
+        run.tool_error(f"emit vacuous: only {acc} of {applicable} wrapper designs accepted by the compiler")
 
 
 # ---------------------------------------------------------------------------------------------------
